@@ -294,6 +294,39 @@ def pair_job(job):
         return res
 
 
+def run_model_corr(report, rng):
+    """the real config._pop_flag (absl's FLAGS replaced by a plain object for the call) against Model.Config.pop_flag:
+    every combination of flag / file value in {absent, 0, negative, positive, the default itself} for integer fields"""
+    import types
+
+    from nanoemoji import config as cfgmod
+
+    from harness.common import zlit
+
+    fields = ["upem", "width", "descender", "linegap", "version_major", "bitmap_resolution"]
+    values = [None, 0, -7, 5, 1024]
+    real_flags = cfgmod.FLAGS
+    cases, metas = [], []
+    try:
+        for field in fields:
+            dflt = getattr(cfgmod._DEFAULT_CONFIG, field)
+            for fl in values + [dflt]:
+                for fv in values + [dflt]:
+                    cfgmod.FLAGS = types.SimpleNamespace(**{field: fl})
+                    cfg = {} if fv is None else {field: fv}
+                    got = cfgmod._pop_flag(cfg, field)
+                    opt = lambda v: "None" if v is None else f"(Some {zlit(v)})"
+                    cases.append(f"({opt(fl)}, {opt(fv)}, {zlit(dflt)}, {zlit(got)})")
+                    metas.append(dict(function="config._pop_flag", field=field, flag=fl, file=fv, default=dflt, impl_out=got, consumed_from_file=field not in cfg))
+                    report.count(("pop_flag", field, fl, fv), fl is not None or fv is not None)
+                    if field in cfg:
+                        report_failure(report, f"pop_flag_leaves_{field}", dict(kind="property", case=metas[-1], problem="_pop_flag did not take the value out of the file's table (load() would then refuse the file as having unexpected keys)"))
+                        return
+    finally:
+        cfgmod.FLAGS = real_flags
+    common.evaluate_corr(report, ["Model.Config Corr.Common Corr.C20"], "Corr.C20", "pop_flag", "pf_case", cases, metas, "pf_agree", "pf_agree", shard=300)
+
+
 def main(argv):
     common.setup_env()
     tier = common.tier_from_args(argv)
@@ -306,6 +339,8 @@ def main(argv):
     )
     st = proof_gate(report)
     rng = random.Random(report.seed)
+    if common.vo_ok("Corr/C20.v"):
+        run_model_corr(report, rng)
     tab = table()
     jobs = []
     fields = [f for f in tab if tab[f][1]]
